@@ -497,6 +497,11 @@ where
             .choose_down_members(num_members, &mut self.choice_buf, &mut self.rng);
 
         while let Some(chosen) = self.choice_buf.pop() {
+            // Previous identities of our own address are kept as Down
+            // members too: never announce to ourselves
+            if chosen.id().addr() == self.identity.addr() {
+                continue;
+            }
             self.send_message(chosen.into_identity(), Message::Announce, &mut runtime)?;
         }
 
